@@ -26,7 +26,7 @@ try:
             r = subprocess.run(["/verif/check", pp, "quick", "--root", wt, "--no-selftest"], capture_output=True, text=True)
             first = [l for l in r.stdout.splitlines() if l.startswith(("FINDING", "ANALYSIS-ERROR"))]
             return pp, r.returncode, (first[0][:240] if first else "")
-        with cf.ThreadPoolExecutor(10) as ex:
+        with cf.ThreadPoolExecutor(int(os.environ.get("RF_JOBS", "10"))) as ex:
             for pp, rc, first in ex.map(one, props):
                 if rc != 0:
                     res[pp] = {"exit": rc, "first": first}
